@@ -3,8 +3,6 @@
 package crl
 
 import (
-	"time"
-
 	"github.com/gr33nbl00d/caddy-revocation-validator/crl/crlrepository"
 )
 
@@ -20,7 +18,4 @@ func VerifResetGlobals() {
 	workDirInUseMutex.Lock()
 	workDirsInUse = make(map[string]int)
 	workDirInUseMutex.Unlock()
-	crlUpdateMutex.Lock()
-	lastCrlUpdateFinishTime = time.Time{}
-	crlUpdateMutex.Unlock()
 }
